@@ -69,7 +69,9 @@ func literal(t *rapid.T) string {
 }
 
 func strLit(t *rapid.T) string {
-	return rapid.SampledFrom([]string{`"High"`, `"Critical"`, `""`, `"x"`, `"%s|%s"`, `"%q"`, `"%v"`, `"%5s"`, `"%d"`, "`raw`", `"a\tb"`, `"None"`, `"3.1"`}).Draw(t, "strlit")
+	return rapid.SampledFrom([]string{`"High"`, `"Critical"`, `""`, `"x"`, `"%s|%s"`, `"%q"`, `"%v"`, `"%5s"`, `"%d"`, "`raw`", `"a\tb"`, `"None"`, `"3.1"`,
+		// delimiters and action-like text inside string literals are ordinary characters
+		`"{{"`, `"}}"`, `"{{ .Vector }}"`, "`{{ .%s }}`", `"{{/*"`, `"*/}}"`, `"\"{{"`, "`{{`"}).Draw(t, "strlit")
 }
 
 func arg(t *rapid.T, level spec.Level) string {
@@ -153,7 +155,7 @@ func action(t *rapid.T, level spec.Level, depth int, defs *[]string) string {
 	case 11:
 		return "{{$x := " + pipeline(t, level, 0) + "}}" + open + rapid.SampledFrom([]string{"$x", "$x | html", "len $x", "$y"}).Draw(t, "usevar") + cls
 	case 12:
-		return rapid.SampledFrom([]string{"{{/* comment */}}", "{{- /* c */ -}}", "{{/* unterminated }}"}).Draw(t, "comment")
+		return rapid.SampledFrom([]string{"{{/* comment */}}", "{{- /* c */ -}}", "{{/* unterminated }}", "{{/* {{ .Vector }} */}}", "{{/* }} {{ */}}", "{{ \"{{\" }}", "{{ `}}` }}{{ \"{{\" }}", "{{ print \"{{\" .Version \"}}\" }}"}).Draw(t, "comment")
 	case 13:
 		name := rapid.SampledFrom([]string{"a", "b", "row"}).Draw(t, "defname")
 		for _, d := range *defs {
